@@ -476,6 +476,43 @@ func blankAround() []string {
 	return out
 }
 
+// c14nPadded: insignificant white space of every length before and inside a value with characters of two, three and
+// four bytes, so that the characters fall on every offset around the sizes in which a reader takes its input
+// (512, 1024, 2048, 4096 ...).  The event records the unpadded text; the style names the padding.
+func c14nPadded(w *tr.Writer) {
+	str := []int{0x1F600, 0x20AC, 0xE9, 0x1D11E, 0x41}
+	v := jv{T: "arr", A: []jv{{T: "str", S: str}, {T: "str", S: []int{0x10FFFF}}}}
+	var sb strings.Builder
+	render(v, styles[0], &sb, 0)
+	text := sb.String()
+	in, _ := cpsOfBytes([]byte(text))
+	var ns []int
+	for n := 0; n <= 1100; n++ {
+		ns = append(ns, n)
+	}
+	for _, c := range []int{2048, 4096, 8192, 16384, 65536} {
+		for n := c - 24; n <= c+4; n++ {
+			ns = append(ns, n)
+		}
+	}
+	for _, n := range ns {
+		for _, where := range []string{"before", "inside"} {
+			padded := strings.Repeat(" ", n) + text
+			if where == "inside" {
+				padded = text[:1] + strings.Repeat("\n", n) + text[1:]
+			}
+			out, err, pan := runC14n([]byte(padded))
+			ev := c14nEvent{K: "canon", Style: fmt.Sprintf("padded-%s-%d", where, n), V: v, In: in, Ok: err == nil, Panic: pan, Out: []int{}}
+			if err != nil {
+				ev.Err = err.Error()
+			} else {
+				ev.Out, ev.UTF8 = cpsOfBytes(out)
+			}
+			w.Emit(ev)
+		}
+	}
+}
+
 func c14nBad(w *tr.Writer) {
 	cases := map[string][]string{
 		"empty":        {"", " ", "\n\t "},
@@ -537,6 +574,7 @@ func c14nRun(in string, seed int64, nrand int, allChars bool, out string) error 
 		}
 	}
 	c14nBad(w)
+	c14nPadded(w)
 	// single-character strings
 	emitChar := func(c int) {
 		if c >= 0xd800 && c <= 0xdfff {
